@@ -60,7 +60,7 @@ for _p, _profiles in {"C06": ["control"], "C07": ["control", "run", "holdpause"]
                       "C16": ["run", "control"], "C36": ["run", "control"],
                       "C01": ["edit"], "C02": ["exec"], "C03": ["exec", "holdpause"], "C04": ["exec", "cancelforce"], "C05": ["exec", "stoprestart"],
                       "C10": ["stoprestart"], "C11": ["stoprestart", "exec", "inject"], "C12": ["cancelforce"],
-                      "C13": ["chaos"], "C14": ["inject", "edit"], "C41": ["exec"], "C39": ["archive"], "C20": ["analyze"]}.items():
+                      "C13": ["chaos"], "C14": ["inject", "edit"], "C41": ["exec", "macroedit"], "C39": ["archive"], "C20": ["analyze"]}.items():
     _add(CheckSpec(property=_p, sim="sime", profiles=_profiles, runs_quick=3000, runs_thorough=300000,
                    level="exploration", rule="(filled per property)", assumptions=_E_ASSUME, wall_quick=45,
                    wall_thorough=1500))
